@@ -47,6 +47,12 @@ def run(ctx):
             texts.append("".join(t))
     for _ in range(2000 if ctx.tier == "quick" else 20000):
         texts.append("".join(rng.choice(SYMS) for _ in range(rng.randrange(4, 25))))
+    # supplementary-plane characters whose low 16 bits equal a BMP character that starts a rule (and the planes' edges)
+    heads = sorted(set(ord(s_[0]) for s_ in SYMS if s_ and ord(s_[0]) < 0x10000) | {0x30, 0xA0, 0xE6, 0x201C, 0x2026, 0x2014, 0xB7, 0xFF08, 0x26, 0x27, 0x60})
+    for h in heads:
+        for plane in (1, 2, 0x10):
+            c = chr(plane * 0x10000 + h)
+            texts += [c, "a" + c + "b", c + c, c + " " + chr(h), chr(h) + c]
     texts = list(dict.fromkeys(texts))
     ops_i, ops_m = [], []
     for i, t in enumerate(texts):
